@@ -9,11 +9,12 @@
 //   Inv{t,op,n}         / Resp{t,op,vals:[..]}    op = pop | popn | recv        (a torn / foreign value is logged as -1)
 //   Settle{blocked:[[t,1|2],..]}   every thread inside a call was found asleep (state SLEEPING) at two inspections 10 ms apart:
 //                                  1 = inside send(), 2 = inside recv()
+//   Observed{what,staged,refused}  directed scenario --prim prfull (informational)
 //   Gate{flavour,reached,dropped}  directed scenario: whether the held thread reached its gate (informational)
 //   Quiesce{left}                  after the final drain (logged as ordinary pops / recvs of thread 8): read_available()
 //   Hang{..}                       a call did not return in time (exit code 4)
 // Judged by spec/Trace_RingA.tla.
-// usage: h_ring --prim mpmc|batch|spsc|chan|wrap [--wrap4] --execs N --seed S --vcpus V --threads K --ops M --out file
+// usage: h_ring --prim mpmc|batch|spsc|chan|wrap|prfull [--wrap4] [--noperturb] --execs N --seed S --vcpus V --threads K --ops M --out file
 //
 // Schedule points without touching the header: common/lockfree_queue.h is compiled UNCHANGED, but while it is being included
 // the tokens memory_order_acquire / _release / _acq_rel / _seq_cst / _relaxed are macros that first call vtr::hook(kind) and
@@ -42,7 +43,7 @@
 #endif
 
 namespace vtr {
-enum { H_ACQ = 1, H_REL = 2, H_ACQREL = 3, H_SEQ = 4, H_RLX = 5 };
+enum { H_ACQ = 1, H_REL = 2, H_ACQREL = 3, H_SEQ = 4, H_RLX = 5, H_DATA = 6 };
 struct Gate {
     std::atomic<int> tid{0};          // id of the photon thread to hold (0 = not armed)
     int kind = 0, nth = 0;
@@ -61,7 +62,7 @@ inline void perturb(int kind) {
     static thread_local uint64_t s = 0;
     if (!s) s = seed().load() * 0x9E3779B97F4A7C15ull + (uint64_t)pthread_self() + 1;
     s ^= s << 13; s ^= s >> 7; s ^= s << 17;
-    unsigned r = (unsigned)(s & 0xff), boost = (kind == H_REL || kind == H_SEQ) ? 2 : 1;     // publication stores and the Dekker RMWs
+    unsigned r = (unsigned)(s & 0xff), boost = (kind == H_REL || kind == H_SEQ || kind == H_DATA) ? 2 : 1;     // publication stores, the Dekker RMWs, slot accesses
     if (r >= 40 * boost) return;
     if (r < 26 * boost) { for (volatile int i = 0; i < (int)((s >> 8) & 0x1ff); i++) {} return; }
     if (r < 34 * boost) { sched_yield(); return; }
@@ -107,7 +108,23 @@ static uint64_t g_seed = 1;
 static bool g_wrap4 = false;
 static vtp::Vcpus g_vc;
 
-struct Item { int32_t v; int32_t chk; };
+// The element type.  The queues accept trivially copyable types or std::shared_ptr<X> (static_assert in LockfreeRingQueueBase);
+// the latter door is used to get schedule points at the slot accesses of the MPMC queue without touching the header: Item is a
+// program-defined specialization of std::shared_ptr for a tag type - in fact a plain pair of words {v, ~v} whose copy operations
+// call vtr::hook(H_DATA) before the copy and between the two words.  `slot = x`, `x = slot` and `T ret = slot` of the MPMC queue
+// therefore have a schedule point in front and in the middle, and a slot that is read while it is written (or overwritten while
+// it is read) shows as a value whose halves do not match (logged as -1).  The batch and SPSC queues copy with memcpy (no hook).
+struct ItemTag;
+namespace std {
+template <> class shared_ptr<ItemTag> {
+public:
+    int32_t v, chk;
+    shared_ptr() : v(0), chk(0) {}
+    shared_ptr(const shared_ptr& o) { vtr::hook(vtr::H_DATA); v = o.v; vtr::hook(vtr::H_DATA); chk = o.chk; }
+    shared_ptr& operator=(const shared_ptr& o) { vtr::hook(vtr::H_DATA); v = o.v; vtr::hook(vtr::H_DATA); chk = o.chk; return *this; }
+};
+}
+typedef std::shared_ptr<ItemTag> Item;
 static inline Item mk(int v) { Item it; it.v = v; it.chk = ~v; return it; }
 static inline int val(const Item& it) { return it.chk == ~it.v ? it.v : -1; }
 
@@ -426,6 +443,61 @@ static bool exec_queue(const std::string& prim, int ex, vt::Rng& r) {
     return true;
 }
 
+// ---------------------------------------------------------------------------------------------- directed: push() next to recv()
+// Behaviour found by TLC in RingQueues.tla (MC_RingQueues_kf_pushfull.cfg): LockfreeMPMCRingQueue::push() decides "full" by
+// check_full(h, t) = (h != t && h == t modulo capacity).  recv() advances head by fetch_add before an element exists, so with
+// `capacity` receivers ahead of tail and the slot at tail still owned by a reader of the previous turn, push() returns false on a
+// queue that holds nothing unread.  Scenario (capacity 2): push a, push b; consumer 3 (photon thread on vCPU 1) takes ticket 0 and
+// is held right before its first mark load; consumer 4 (OS thread) receives b and waits for ticket 2; consumer 5 (OS thread) waits
+// for ticket 3; now push c.  The outcome is recorded as an Observed event; C07 does not say when push() may fail, so the history
+// is judged with pfail = "free" and is accepted either way.
+static bool exec_prfull(const std::string& prim, int ex, vt::Rng& r) {
+    if (g_vcpus < 2) return true;
+    std::unique_ptr<QIface> q(make_queue("mpmc", 2, false));
+    QIface* Q = q.get();
+    vt::Ev("Reset").s("prim", prim).s("kind", "mpmc").s("style", "pr").i("ex", ex).i("cap", 2).b("flex", false).b("os", true)
+        .i("np", 1).i("nc", 3).i("vcpus", 2).s("pfail", "free").i("start", 0);
+    Client prod; prod.id = 1; prod.producer = true; prod.photon = true;
+    Op pushop{PUSH, 1, 0, false, false}, recvop{RECV, 1, 0, false, false};
+    do_push(Q, &prod, pushop); do_push(Q, &prod, pushop);
+    Client c3, c4, c5; c3.id = 3; c3.photon = true; c4.id = 4; c5.id = 5;
+    vtr::arm(3, vtr::H_ACQ, 1);
+    struct A { QIface* q; Client* c; Op op; } a3{Q, &c3, recvop};
+    c3.th = thread_create([](void* p) -> void* { auto a = (A*)p; do_pop(a->q, a->c, a->op); a->c->done = true; return nullptr; }, &a3, 256 * 1024);
+    thread_enable_join(c3.th); vtp::reg().set(c3.th, 3);
+    thread_migrate(c3.th, g_vc.vc[1]);
+    for (int i = 0; i < 2000 && !vtr::gate().reached.load(); i++) thread_usleep(50);
+    bool held = vtr::gate().reached.load() && !vtr::gate().dropped.load();
+    auto ahead = [Q] { return -(int64_t)Q->read_available(); };      // head - tail
+    std::thread t4([&] { do_pop(Q, &c4, recvop); do_pop(Q, &c4, recvop); c4.done = true; });
+    for (int i = 0; i < 4000 && ahead() < 1; i++) thread_usleep(50);
+    std::thread t5([&] { do_pop(Q, &c5, recvop); c5.done = true; });
+    for (int i = 0; i < 4000 && ahead() < 2; i++) thread_usleep(50);
+    bool staged = held && ahead() == 2 && !vtr::gate().dropped.load();
+    int seq_before = prod.next_seq;
+    do_push(Q, &prod, pushop);                                       // the push in question
+    bool refused = Q->read_available() == (size_t)-2 && prod.next_seq == seq_before + 1 && ahead() == 2;
+    vt::Ev("Observed").s("what", "push() with capacity receivers ahead of tail and the slot at tail still being read").b("staged", staged).b("refused", staged && refused);
+    vtr::disarm();
+    // feed the waiting receivers (ordinary pushes), then finish
+    uint64_t waited = 0;
+    while (!(c3.done.load() && c4.done.load() && c5.done.load())) {
+        if ((int64_t)Q->read_available() <= 0) do_push(Q, &prod, pushop);
+        thread_usleep(300); waited += 300;
+        if (waited > 20 * 1000 * 1000) { vt::Ev("Hang").raw("blocked", "[]").s("where", "prfull").s("what", prim); vt::flush(); return false; }
+    }
+    t4.join(); t5.join(); thread_join((join_handle*)c3.th);
+    for (int guard = 0; guard < 16; guard++) {
+        Item it; bool got;
+        vt::Ev("Inv").i("t", 8).s("op", "pop").i("n", 1);
+        got = Q->pop(it);
+        vt::Ev("Resp").i("t", 8).s("op", "pop").raw("vals", vals_json(&it, got ? 1 : 0));
+        if (!got) break;
+    }
+    vt::Ev("Quiesce").i("left", (int64_t)Q->read_available());
+    return true;
+}
+
 // ---------------------------------------------------------------------------------------------- channels
 static bool exec_chan(const std::string& prim, int ex, vt::Rng& r) {
     static const char* KINDS[] = {"mpmc", "mpmc", "flexmpmc", "flexmpmc", "batch", "spsc", "flexbatch"};
@@ -572,7 +644,7 @@ int main(int argc, char** argv) {
     int rc = 0;
     for (int ex = 0; ex < g_execs; ex++) {
         vtp::reg().clear();
-        bool ok = prim == "chan" ? exec_chan(prim, ex, r) : exec_queue(prim, ex, r);
+        bool ok = prim == "chan" ? exec_chan(prim, ex, r) : prim == "prfull" ? exec_prfull(prim, ex, r) : exec_queue(prim, ex, r);
         if (!ok) { rc = 4; break; }
     }
     wd.end();
